@@ -47,11 +47,16 @@ A1 == Rev("a1", 1, <<AAddM, AMore>>)
 N0 == Rev("n0", 0, <<Add, MthN("sub", <<H>>)>>)
 N1 == Rev("n1", 1, <<Add, MthN("sub", <<H>>)>>)                    \* H gains its versioned field: compatible
 NB == Rev("nb", 1, <<Add, MthN("sub", <<U32>>)>>)                  \* the nested method's parameter type changes: breaking
-Revs == {R0, R1, R2, B1, B2, B3, B4, B5, A0, A1, N0, N1, NB}
+\* an enum of an argument / of the return type gains a trailing variant WITHOUT a version: every recorded version changes
+EU == Enum("", <<Var(0, <<>>), Var(0, <<U8>>), Var(0, <<>>)>>)
+B6 == Rev("b6", 1, <<Add, Get, Mth("en", <<EU>>, E, FALSE), Extra>>)
+B7 == Rev("b7", 1, <<Add, Get, Mth("en", <<E>>, EU, FALSE), Extra>>)
+Revs == {R0, R1, R2, B1, B2, B3, B4, B5, B6, B7, A0, A1, N0, N1, NB}
 
 \* successor relation: compatible evolution / breaking change
 Compat   == {<<R0, R1>>, <<R1, R2>>, <<R0, R2>>, <<A0, A1>>, <<N0, N1>>}
-Breaking == {<<R0, B1>>, <<R1, B1>>, <<R0, B2>>, <<R0, B3>>, <<R0, B4>>, <<R1, B5>>, <<R2, B5>>, <<R1, B2>>, <<N0, NB>>, <<N1, NB>>}
+Breaking == {<<R0, B1>>, <<R1, B1>>, <<R0, B2>>, <<R0, B3>>, <<R0, B4>>, <<R1, B5>>, <<R2, B5>>, <<R1, B2>>, <<N0, NB>>, <<N1, NB>>,
+             <<R0, B6>>, <<R1, B6>>, <<R0, B7>>, <<R1, B7>>}
 
 \* the definition of revision r as seen at version v: schemas of the argument / return types AT v
 Def(r, v) == [n \in 1..Len(r.ms) |->
